@@ -10,11 +10,18 @@ Definition sub_obs (s : state) (i : nat) : iobs :=
               | Some (OWrote _ d _) => RWrote d
               | Some (OErr e) => RErr e
               | Some OPanic => RPanic
+              | Some (OCrash None) => RCrash
+              | Some (OCrash (Some _)) => RWrote []     (* res.out = nil, err = nil *)
               | None => RNone
               end;
-     o_shared := match a_out a with Some (OWrote _ _ (Some _)) => true | _ => false end;
+     o_shared := match a_out a with Some (OWrote _ _ (Some _)) | Some (OCrash (Some _)) => true | _ => false end;
      o_cancelled := a_cancel a;
-     o_ans := a_ans a |}.
+     o_ans := a_ans a;
+     o_wr := None |}.
+
+Definition sub_registered (reqs : list req) (s : state) : nat :=
+  length (filter (fun i => match tbl s (rkey (Sub.rq reqs i)) with Some _ => true | None => false end)
+                 (seq 0 (length reqs))).
 
 Definition sub_observe (reqs : list req) (s : state) : list iobs := map (sub_obs s) (seq 0 (length reqs)).
 
@@ -44,8 +51,9 @@ Qed.
 Lemma leader_not_shared s j : Inv reqs s -> a_ref (act s j) = Some j -> o_shared (sub_obs s j) = false.
 Proof.
   intros HI Hr. unfold sub_obs. cbn.
-  destruct (a_out (act s j)) as [[k d [j'|]|e|]|] eqn:Ho; auto.
-  destruct (c_out_sh _ _ HI _ _ _ _ Ho) as (N & Hr' & _). congruence.
+  destruct (a_out (act s j)) as [[k d [j'|]|e| |[j'|]]|] eqn:Ho; auto.
+  - destruct (c_out_sh _ _ HI _ _ _ _ Ho) as (N & Hr' & _). congruence.
+  - destruct (c_out_crash_sh _ _ HI _ _ Ho) as (N & Hr' & _). congruence.
 Qed.
 
 Lemma producer_intro s i j w :
@@ -66,11 +74,12 @@ Qed.
 
 Lemma check_actor_model s i :
   sub_reach reqs s -> i < length reqs -> a_out (act s i) <> None ->
-  check_actor reqs (sub_observe reqs s) i = None.
+  check_actor true reqs (sub_observe reqs s) i = None.
 Proof.
   intros HR Hi Hout. pose proof (reach_inv _ _ HR) as HI.
-  unfold check_actor. rewrite (ob_observe _ _ _ Hi). unfold sub_obs. cbn [o_res o_shared o_cancelled o_ans].
-  destruct (a_out (act s i)) as [[k d [j|]|[a|a]|]|] eqn:Ho; try congruence.
+  unfold check_actor, check_wrote. rewrite (ob_observe _ _ _ Hi). unfold sub_obs.
+  cbn [o_res o_shared o_cancelled o_ans o_wr wr_is].
+  destruct (a_out (act s i)) as [[k d [j|]|[a|a]| |[j|]]|] eqn:Ho; try congruence.
   - destruct (follower_bytes_l _ _ _ _ _ _ HR Ho) as (N & Hd & Hoj & Hb & Hk).
     destruct (c_out_sh _ _ HI _ _ _ _ Ho) as (_ & Hr & _).
     destruct (c_foll _ _ HI _ _ Hr N) as (Hj & Hkey & He & _).
@@ -80,6 +89,8 @@ Proof.
     pose proof (producer_intro s i j _ HI Hi Hr N Haj) as P.
     assert (Hin : In j (actors reqs)) by (apply in_seq; lia).
     pose proof (KD i j Hkey) as E1.
+    destruct (true && bytes_eqb d [] && existsb (fun j0 => producer reqs (sub_observe reqs s) i APanic j0) (actors reqs));
+      [reflexivity|].
     assert (X : existsb (fun j0 => producer reqs (sub_observe reqs s) i AOk j0 ||
                                    producer reqs (sub_observe reqs s) i AFailBody j0 ||
                                    producer reqs (sub_observe reqs s) i ACanBody j0) (actors reqs) = true).
@@ -99,10 +110,23 @@ Proof.
       rewrite (producer_intro s i a _ HI Hi Hr N Ha). reflexivity.
   - destruct (c_out_ctx _ _ HI _ _ Ho) as (-> & Hc). rewrite Nat.eqb_refl, Hc. reflexivity.
   - exfalso. exact (c_out_panic _ _ HI i Ho).
+  - (* woke on the item of a leader whose load panicked: res.out = nil *)
+    destruct (c_out_crash_sh _ _ HI _ _ Ho) as (N & Hr & Hoj & _).
+    pose proof (c_out_crash _ _ HI _ Hoj) as Haj.
+    destruct (c_foll _ _ HI _ _ Hr N) as (Hj & Hkey & He & _).
+    pose proof (leader_exists _ _ HI Hj) as Hjl.
+    unfold Spec.rq. unfold Sub.rq in *. rewrite He. cbn [negb].
+    pose proof (producer_intro s i j _ HI Hi Hr N Haj) as P.
+    assert (Hin : In j (actors reqs)) by (apply in_seq; lia).
+    assert (Y : existsb (fun j0 => producer reqs (sub_observe reqs s) i APanic j0) (actors reqs) = true).
+    { apply existsb_exists. exists j. split; [exact Hin|exact P]. }
+    rewrite Y. reflexivity.
+  - (* own injected panic *)
+    rewrite (c_out_crash _ _ HI _ Ho). reflexivity.
 Qed.
 
 Lemma first_fail_all l os :
-  (forall i, In i l -> check_actor reqs os i = None) -> first_fail reqs os l = None.
+  (forall i, In i l -> check_actor true reqs os i = None) -> first_fail true reqs os l = None.
 Proof.
   induction l as [|x l IH]; cbn; intros H; [reflexivity|].
   rewrite (H x (or_introl eq_refl)). apply IH. intros i Hin. apply H. right. exact Hin.
@@ -110,10 +134,28 @@ Qed.
 
 Lemma spec_b_model s :
   sub_reach reqs s -> (forall i, i < length reqs -> a_out (act s i) <> None) ->
-  spec_b reqs (sub_observe reqs s) = None.
+  spec_b true reqs (sub_observe reqs s) = None.
 Proof.
   intros HR Hall. unfold spec_b. apply first_fail_all. intros i Hin.
   unfold actors in Hin. apply in_seq in Hin. apply check_actor_model; auto; try lia. apply Hall. lia.
+Qed.
+
+Lemma filter_none {A} (f : A -> bool) l : (forall x, In x l -> f x = false) -> filter f l = [].
+Proof.
+  induction l as [|x l IH]; cbn; intros H; [reflexivity|].
+  rewrite (H x (or_introl eq_refl)). apply IH. intros y Hy. apply H. right. exact Hy.
+Qed.
+
+Lemma spec_q_b_model s :
+  sub_reach reqs s -> (forall i, i < length reqs -> a_pc (act s i) = PDone) ->
+  spec_q_b true reqs (sub_observe reqs s) (sub_registered reqs s) = None.
+Proof.
+  intros HR Hall. unfold spec_q_b.
+  rewrite spec_b_model; auto.
+  2:{ intros i Hi. apply (returned_iff_outcome reqs s i HR). apply Hall. exact Hi. }
+  unfold sub_registered. rewrite filter_none; [reflexivity|].
+  intros i _. rewrite (quiescent_registry_empty_l reqs s HR); [reflexivity|].
+  intros j Hj. apply Hall. apply exists_lt. exact Hj.
 Qed.
 
 End S.
